@@ -370,7 +370,8 @@ fn render_comments(cs: &[CommentDoc], indent: i32, opts: &RenderOpts, state: &mu
             state.swallow_next_break = true;
         } else if nls > 0 {
             state.current_line += nls;
-            state.col = 0;
+            let last = c.text.rsplit('\n').next().unwrap_or("");
+            state.col = last.chars().count();
         } else {
             state.col += c.text.chars().count();
         }
